@@ -6,21 +6,22 @@ the change breaks (and, with --all-checks, every check), record which checks rep
 seeded/<name>/meta.json (detected_by) and print a table."""
 import json, os, re, subprocess, sys, shutil
 ROOT = os.path.dirname(os.path.dirname(os.path.abspath(__file__)))
-WT = "/tmp/mx/repo"
+MX = os.environ.get("MX_DIR", "/tmp/mx")  # scratch root (worktree, build, output, snapshot of /verif); MX_DIR lets two runs coexist
+WT = MX + "/repo"
 def sh(cmd, **kw):
     return subprocess.run(cmd, shell=True, stdout=subprocess.PIPE, stderr=subprocess.STDOUT, text=True, **kw)
 def main():
     args = sys.argv[1:]
     allc = "--all-checks" in args
-    names = [a for a in args if not a.startswith("--")] or sorted(n for n in os.listdir(os.path.join(ROOT, "seeded")) if os.path.isdir(os.path.join(ROOT, "seeded", n)))
-    os.makedirs("/tmp/mx", exist_ok=True)
+    names = [a for a in args if not a.startswith("--")] or sorted(n for n in os.listdir(os.path.join(ROOT, "seeded")) if os.path.isdir(os.path.join(ROOT, "seeded", n)) and not n.startswith("_"))
+    os.makedirs(MX, exist_ok=True)
     sh(f"git -C /repo worktree remove --force {WT}")
     shutil.rmtree(WT, ignore_errors=True)
     r = sh(f"git -C /repo worktree add -q --detach {WT} HEAD")
     if r.returncode: print(r.stdout); return 2
-    env = dict(os.environ, VERIF_REPO=WT, VERIF_BUILD="/tmp/mx/build", VERIF_OUT="/tmp/mx/out")
+    env = dict(os.environ, VERIF_REPO=WT, VERIF_BUILD=MX + "/build", VERIF_OUT=MX + "/out")
     # the checks run from a snapshot of /verif taken now, so that work in /verif during the (long) run cannot disturb it
-    SNAP = "/tmp/mx/verif"
+    SNAP = MX + "/verif"
     shutil.rmtree(SNAP, ignore_errors=True)
     sh(f"rsync -a --exclude build --exclude replays --exclude .git {ROOT}/ {SNAP}/")
     props = sorted(json.loads(l)["id"] for l in open(os.path.join(ROOT, "properties.jsonl")))
@@ -46,7 +47,7 @@ def main():
             print(f"{name:10s} breaks {target}: detected by {sorted(meta['detected_by'])}" + (f" | NOT by own check!" if target not in meta["detected_by"] else "") + (f" | inconclusive {meta['inconclusive']}" if meta["inconclusive"] else ""), flush=True)
     finally:
         sh(f"git -C /repo worktree remove --force {WT}")
-        shutil.rmtree("/tmp/mx", ignore_errors=True)
+        shutil.rmtree(MX, ignore_errors=True)
     return 0
 if __name__ == "__main__":
     sys.exit(main())
